@@ -108,7 +108,15 @@ func loadWorld(repo string) (*World, error) {
 		}
 	}
 	for fn := range ssautil.AllFunctions(prog) {
-		if fn.Pkg == nil || fn.Synthetic != "" && fn.Name() != "init" {
+		// an instance of a generic module function is module code: give it the package of its origin so that
+		// every "is this a module function" test sees it (go/ssa leaves Pkg nil for instances)
+		if fn.Pkg == nil && fn.Origin() != nil && fn.Origin().Pkg != nil && strings.HasPrefix(fn.Synthetic, "instance of") {
+			fn.Pkg = fn.Origin().Pkg
+		}
+	}
+	for fn := range ssautil.AllFunctions(prog) {
+		// the body of a range-over-func loop is a synthetic yield function: it is source code all the same
+		if fn.Pkg == nil || fn.Synthetic != "" && fn.Name() != "init" && !strings.HasPrefix(fn.Synthetic, "range-over-func") && !strings.HasPrefix(fn.Synthetic, "instance of") {
 			continue
 		}
 		pp := fn.Pkg.Pkg.Path()
@@ -211,6 +219,16 @@ func (w *World) FuncKey(fn *ssa.Function) string {
 		// anonymous: parentKey$N
 		name := fn.Name() // e.g. checkCertificate$1 or ssoHandleFunc$3
 		pk := w.FuncKey(fn.Parent())
+		// A factory's product is "$1" whatever helper closures the factory defines before it: the rules name
+		// "the closure verifyRedirectSignature returns" as verifyRedirectSignature$1.
+		if rc := returnedClosure(fn.Parent()); rc != nil {
+			if rc == fn {
+				return pk + "$1"
+			}
+			if strings.HasSuffix(name, "$1") {
+				return pk + "$helper1"
+			}
+		}
 		if i := strings.LastIndex(name, "$"); i >= 0 {
 			return pk + name[i:]
 		}
@@ -239,6 +257,40 @@ func (w *World) FuncKey(fn *ssa.Function) string {
 		return fmt.Sprintf("%s.(%s%s).%s", pkg, star, tn, fn.Name())
 	}
 	return pkg + "." + fn.Name()
+}
+
+// returnedClosure: p's first result has a function type and every return yields a closure of the same
+// anonymous function of p: that function (p is a factory); nil otherwise.
+func returnedClosure(p *ssa.Function) *ssa.Function {
+	res := p.Signature.Results()
+	if res.Len() == 0 {
+		return nil
+	}
+	if _, ok := res.At(0).Type().Underlying().(*types.Signature); !ok {
+		return nil
+	}
+	var out *ssa.Function
+	for _, b := range p.Blocks {
+		if len(b.Instrs) == 0 {
+			continue
+		}
+		ret, ok := b.Instrs[len(b.Instrs)-1].(*ssa.Return)
+		if !ok || len(ret.Results) == 0 {
+			continue
+		}
+		var f *ssa.Function
+		switch v := ret.Results[0].(type) {
+		case *ssa.MakeClosure:
+			f, _ = v.Fn.(*ssa.Function)
+		case *ssa.Function:
+			f = v
+		}
+		if f == nil || f.Parent() != p || (out != nil && out != f) {
+			return nil
+		}
+		out = f
+	}
+	return out
 }
 
 // Func resolves a function by key; nil when the anchor no longer exists.
